@@ -549,7 +549,12 @@ class Exec:
         if rq.get("compress"):
             kw["compress"] = rq["compress"]
         if rq.get("expect100"):
-            kw["expect100"] = True
+            if rq.get("expect_via"):
+                # the same expectation asked for through the header (field values of Expect are case-insensitive, RFC 9110 10.1.1)
+                hd.add("Expect", rq["expect_via"])
+                kw["headers"] = hd
+            else:
+                kw["expect100"] = True
         b = rq["body"]
         kind, size = b["kind"], b.get("size", 0)
         self.to_close = []
@@ -1358,6 +1363,7 @@ def gen_case(rng: random.Random, force=None):
         "chunked": force["req_chunked"] if "req_chunked" in force else (True if rng.random() < 0.25 else None),
         "compress": force["req_compress"] if "req_compress" in force else (rng.choice(["deflate", "gzip", True]) if rng.random() < 0.15 else None),
         "expect100": force["expect100"] if "expect100" in force else rng.random() < 0.15,
+        "expect_via": random.Random(rsize * 31 + len(method)).choice([None, None, "100-continue", "100-Continue", "100-CONTINUE"]),
         "version": version,
         "conn_close": force["conn_close"] if "conn_close" in force else rng.random() < 0.12,
     }
